@@ -13,6 +13,8 @@ pub mod c12;
 pub mod c13;
 pub mod c14;
 pub mod c15;
+pub mod c16;
+pub mod c17;
 pub mod c18;
 pub mod c19;
 pub mod c20;
@@ -37,6 +39,8 @@ pub fn run(ctx: &RunCtx) -> i32 {
         "C13" => c13::run(ctx),
         "C14" => c14::run(ctx),
         "C15" => c15::run(ctx),
+        "C16" => c16::run(ctx),
+        "C17" => c17::run(ctx),
         "C18" => c18::run(ctx),
         "C19" => c19::run(ctx),
         "C20" => c20::run(ctx),
@@ -64,6 +68,8 @@ pub fn replay(id: &str, v: &serde_json::Value) -> CaseResult {
         "C13" => c13::replay(v),
         "C14" => c14::replay(v),
         "C15" => c15::replay(v),
+        "C16" => c16::replay(v),
+        "C17" => c17::replay(v),
         "C18" => c18::replay(v),
         "C19" => c19::replay(v),
         "C20" => c20::replay(v),
